@@ -199,13 +199,75 @@ fn dims_of<C: geo_traits::CoordTrait<T = f64>>(p: C, out: &mut Vec<W>) {
     }
 }
 
+/// The other accessors of the same coordinates (checked `nth`, `nth_unchecked`, `x`, `y`, `x_y`) and the other views
+/// (by reference, through `PointTrait::coord`) must agree with `nth_or_panic` of the value: any disagreement is
+/// appended as `-9 view index` (nothing is appended when all agree).
+fn agree<C: geo_traits::CoordTrait<T = f64>>(view: W, q: C, n: usize, first: &[W], out: &mut Vec<W>) {
+    let r = std::panic::catch_unwind(std::panic::AssertUnwindSafe(|| {
+        let mut bad = vec![];
+        if q.dim().size() != n {
+            bad.extend([-9, view, -1]);
+        }
+        for i in 0..n {
+            let want = first.get(2 * i + 1).copied();
+            if first.get(2 * i) != Some(&0) {
+                continue;
+            }
+            let a = fb(q.nth_or_panic(i));
+            let b = q.nth(i).map(fb);
+            let c = fb(unsafe { q.nth_unchecked(i) });
+            if Some(a) != want || b != want || Some(c) != want {
+                bad.extend([-9, view, i as W]);
+            }
+        }
+        if n >= 2 && first.get(0) == Some(&0) && first.get(2) == Some(&0) {
+            let (x, y) = q.x_y();
+            if Some(&fb(q.x())) != first.get(1) || Some(&fb(q.y())) != first.get(3) || Some(&fb(x)) != first.get(1) || Some(&fb(y)) != first.get(3) {
+                bad.extend([-9, view, -2]);
+            }
+        }
+        if q.nth(n).is_some() {
+            bad.extend([-9, view, n as W]);
+        }
+        bad
+    }));
+    match r {
+        Ok(b) => out.extend(b),
+        Err(_) => out.extend([-9, view, -3]),
+    }
+}
+
+macro_rules! all_views {
+    ($p:expr, $out:expr) => {{
+        let p = $p;
+        dims_of(p, $out);
+        let n = $out[0] as usize;
+        let first: Vec<W> = $out[1..].to_vec();
+        agree(1, p, n, &first, $out);
+        agree(2, &p, n, &first, $out);
+        if let Some(c) = geo_traits::PointTrait::coord(&p) {
+            agree(3, c, n, &first, $out);
+        } else {
+            $out.extend([-9, 3, -4]);
+        }
+        if let Some(c) = geo_traits::PointTrait::coord(&&p) {
+            agree(4, c, n, &first, $out);
+        } else {
+            $out.extend([-9, 4, -4]);
+        }
+        if geo_traits::PointTrait::dim(&p).size() != n || geo_traits::PointTrait::dim(&&p).size() != n {
+            $out.extend([-9, 5, -1]);
+        }
+    }};
+}
+
 /// [3; point type code; coordinates] -> dimension count and every coordinate below it through the geo-traits view
 fn case_dims(c: &mut Cur) -> Result<Vec<W>, BadCase> {
     let mut out = vec![];
     match c.next()? {
-        1 => dims_of(Point::new(c.f()?, c.f()?), &mut out),
-        21 => dims_of(PointM::new(c.f()?, c.f()?, c.f()?), &mut out),
-        11 => dims_of(PointZ::new(c.f()?, c.f()?, c.f()?, c.f()?), &mut out),
+        1 => all_views!(Point::new(c.f()?, c.f()?), &mut out),
+        21 => all_views!(PointM::new(c.f()?, c.f()?, c.f()?), &mut out),
+        11 => all_views!(PointZ::new(c.f()?, c.f()?, c.f()?, c.f()?), &mut out),
         _ => return Err(BadCase),
     }
     Ok(out)
